@@ -383,15 +383,185 @@ theorem outerLoop_ne_panic (tags : Bytes) :
 theorem decodeTags_total (tags : Bytes) : decodeTags tags ≠ .panic :=
   outerLoop_ne_panic tags (tags.length + 1) 0 [] (by omega) (by omega)
 
-/- OPEN: decodeTags_groupConcat —
-     theorem decodeTags_groupConcat (ts : List EncTag) : decodeTags (groupConcat ts) = .ok ts
-   (`decode_tags` parses exactly what `GROUP_CONCAT(plaintext || ':' || HEX(name) || ':' || HEX(value))` produces, for any tag
-   list including empty names / values and the empty list).  Not proved in the time budget: it needs an invariant for
-   `innerLoop` over `pre ++ hexUpper name ++ 0x3A :: hexUpper value ++ rest` (no ',' / ':' among upper-case hex digits,
-   `hexDecode (hexUpper b) = some b`) on top of the index invariant of `innerLoop_spec`.  Evidence in its place: `decide`-checked
-   instances in Props/C03.lean (empty names, empty values, no tags), and every `fetch` / `scan` of the correspondence run goes
-   through the real `decode_tags` on real `GROUP_CONCAT` output (records with 0..3 tags incl. empty names / values: 100 % agreement).
-   `decodeTags_total` (no panic for ANY bytes) is proved above. -/
+/-! ### `decode_tags` parses exactly what `GROUP_CONCAT` produces -/
+
+theorem nibble_hexUpperDigit : ∀ n, n < 16 → nibble (hexUpperDigit n) = some n := by decide
+
+theorem hexUpperDigit_ne : ∀ n, n < 16 → hexUpperDigit n ≠ 0x2C ∧ hexUpperDigit n ≠ 0x3A := by decide
+
+/-- `hex::decode ∘ HEX = id` -/
+theorem hexDecode_hexUpper (b : Bytes) : hexDecode (hexUpper b) = some b := by
+  induction b with
+  | nil => rfl
+  | cons x xs ih =>
+    have hx : x.toNat < 256 := x.toNat_lt
+    have h1 : x.toNat / 16 < 16 := by omega
+    have h2 : x.toNat % 16 < 16 := by omega
+    have h3 : UInt8.ofNat (x.toNat / 16 * 16 + x.toNat % 16) = x := by
+      rw [Nat.div_add_mod']; exact UInt8.ofNat_toNat
+    simp only [hexUpper, hexDecode, nibble_hexUpperDigit _ h1, nibble_hexUpperDigit _ h2, ih, h3]
+
+/-- upper-case hex digits are never `,` or `:` -/
+theorem hexUpper_no_sep (b : Bytes) : ∀ c ∈ hexUpper b, c ≠ 0x2C ∧ c ≠ 0x3A := by
+  induction b with
+  | nil => intro c hc; simp [hexUpper] at hc
+  | cons x xs ih =>
+    intro c hc
+    have hx : x.toNat < 256 := x.toNat_lt
+    simp only [hexUpper, List.mem_cons] at hc
+    rcases hc with hc | hc | hc
+    · subst hc; exact hexUpperDigit_ne _ (by omega)
+    · subst hc; exact hexUpperDigit_ne _ (by omega)
+    · exact ih c hc
+
+theorem getElem?_mid (a b : Bytes) (c : UInt8) (tags : Bytes) (idx : Nat) (h : tags = a ++ c :: b) (hi : idx = a.length) :
+    tags[idx]? = some c := by
+  subst h hi; simp
+
+theorem sliceRange_mid (a h b tags : Bytes) (lo hi : Nat) (ht : tags = a ++ h ++ b) (hlo : lo = a.length)
+    (hhi : hi = a.length + h.length) : sliceRange tags lo hi = .ok h := by
+  subst ht hlo hhi
+  unfold sliceRange
+  have c : a.length ≤ a.length + h.length ∧ a.length + h.length ≤ (a ++ h ++ b).length := by
+    simp only [List.length_append]; omega
+  simp only [c, and_self, if_true]
+  have e : (a ++ h ++ b).take (a.length + h.length) = a ++ h := List.take_left' (by simp)
+  rw [e, List.drop_left' rfl]
+
+/-- the inner loop walks over a run of non-separator bytes without changing `name_end` -/
+theorem innerLoop_skip (ns : Nat) (pl : Bool) (h : Bytes) :
+    ∀ (a b tags : Bytes) (f ne idx : Nat), tags = a ++ h ++ b → idx = a.length → (∀ c ∈ h, c ≠ 0x2C ∧ c ≠ 0x3A) →
+      innerLoop tags tags.length ns pl (f + h.length) idx ne = innerLoop tags tags.length ns pl f (idx + h.length) ne := by
+  induction h with
+  | nil => intros; rfl
+  | cons c h ih =>
+    intro a b tags f ne idx ht hi hc
+    have hlt : ¬ idx ≥ tags.length := by
+      subst ht hi; simp only [List.length_append, List.length_cons]; omega
+    have hget : tags[idx]? = some c := getElem?_mid a (h ++ b) c tags idx (by simp [ht]) hi
+    have hcc := hc c (List.mem_cons_self)
+    show innerLoop tags tags.length ns pl ((f + h.length) + 1) idx ne = _
+    rw [innerLoop]
+    simp only [hlt, if_false, hget, hcc.1, hcc.2]
+    have := ih (a ++ [c]) b tags f ne (idx + 1) (by simp [ht]) (by simp [hi])
+      (fun x hx => hc x (List.mem_cons_of_mem _ hx))
+    rw [this]
+    congr 1
+    simp only [List.length_cons]; omega
+
+/-- one row `HEX(name) ':' HEX(value)` followed by the end of the text or a `,`: the inner loop returns exactly that tag
+    and stops on the byte after the value -/
+theorem innerLoop_row (pre rest : Bytes) (fl : UInt8) (name value : Bytes) (pl : Bool) (f : Nat) (tags : Bytes)
+    (ht : tags = pre ++ fl :: 0x3A :: (hexUpper name ++ 0x3A :: hexUpper value) ++ rest)
+    (hrest : rest = [] ∨ ∃ r, rest = 0x2C :: r) :
+    innerLoop tags tags.length (pre.length + 2) pl (f + 1 + (hexUpper value).length + 1 + (hexUpper name).length)
+        (pre.length + 2) 0
+      = .ok (⟨name, value, pl⟩, pre.length + 2 + (hexUpper name).length + 1 + (hexUpper value).length) := by
+  -- phase 1: the name digits
+  have e1 : tags = (pre ++ [fl, 0x3A]) ++ hexUpper name ++ (0x3A :: (hexUpper value ++ rest)) := by simp [ht]
+  rw [innerLoop_skip _ _ (hexUpper name) (pre ++ [fl, 0x3A]) _ tags _ _ _ e1 (by simp only [List.length_append, List.length_cons, List.length_nil] <;> omega) (hexUpper_no_sep name)]
+  -- the colon
+  have hlen : tags.length = pre.length + 2 + (hexUpper name).length + 1 + (hexUpper value).length + rest.length := by
+    rw [ht]; simp only [List.length_append, List.length_cons]; omega
+  have hlt : ¬ pre.length + 2 + (hexUpper name).length ≥ tags.length := by omega
+  have hget : tags[pre.length + 2 + (hexUpper name).length]? = some 0x3A :=
+    getElem?_mid (pre ++ [fl, 0x3A] ++ hexUpper name) (hexUpper value ++ rest) 0x3A tags _ (by simp [ht]) (by simp only [List.length_append, List.length_cons, List.length_nil] <;> omega)
+  rw [innerLoop]
+  simp only [hlt, if_false, hget]
+  have d1 : ¬ ((0x3A : UInt8) = 0x2C) := by decide
+  simp only [d1, if_false, if_true, ne_eq, not_true_eq_false]
+  -- phase 2: the value digits
+  have e2 : tags = (pre ++ [fl, 0x3A] ++ hexUpper name ++ [0x3A]) ++ hexUpper value ++ rest := by simp [ht]
+  rw [innerLoop_skip _ _ (hexUpper value) _ rest tags _ _ _ e2 (by simp only [List.length_append, List.length_cons, List.length_nil] <;> omega) (hexUpper_no_sep value)]
+  -- the end of the row
+  have hfin : finishTag tags (pre.length + 2) pl (pre.length + 2 + (hexUpper name).length + 1 + (hexUpper value).length)
+      (pre.length + 2 + (hexUpper name).length)
+      = .ok (⟨name, value, pl⟩, pre.length + 2 + (hexUpper name).length + 1 + (hexUpper value).length) := by
+    unfold finishTag
+    have n0 : ¬ pre.length + 2 + (hexUpper name).length = 0 := by omega
+    rw [sliceRange_mid (pre ++ [fl, 0x3A]) (hexUpper name) _ tags _ _ e1 (by simp only [List.length_append, List.length_cons, List.length_nil] <;> omega) (by simp only [List.length_append, List.length_cons, List.length_nil] <;> omega)]
+    rw [sliceRange_mid _ (hexUpper value) rest tags _ _ e2 (by simp only [List.length_append, List.length_cons, List.length_nil] <;> omega) (by simp only [List.length_append, List.length_cons, List.length_nil] <;> omega)]
+    simp only [n0, if_false, bind_ok, hexDecode_hexUpper]
+  rw [innerLoop]
+  rcases hrest with hr | ⟨r, hr⟩
+  · have hge : pre.length + 2 + (hexUpper name).length + 1 + (hexUpper value).length ≥ tags.length := by
+      rw [hlen, hr]; simp
+    simp only [hge, if_true, hfin]
+  · have hlt2 : ¬ pre.length + 2 + (hexUpper name).length + 1 + (hexUpper value).length ≥ tags.length := by
+      rw [hlen, hr]; simp
+    have hget2 : tags[pre.length + 2 + (hexUpper name).length + 1 + (hexUpper value).length]? = some 0x2C :=
+      getElem?_mid (pre ++ [fl, 0x3A] ++ hexUpper name ++ [0x3A] ++ hexUpper value) r 0x2C tags _ (by simp [ht, hr])
+        (by simp only [List.length_append, List.length_cons, List.length_nil] <;> omega)
+    simp only [hlt2, if_false, hget2, if_true, hfin]
+
+theorem tagText_length (t : EncTag) : (tagText t).length = 2 + (hexUpper t.name).length + 1 + (hexUpper t.value).length := by
+  simp only [tagText, List.length_cons, List.length_append]; omega
+
+/-- one iteration of the outer loop over a well-formed row -/
+theorem outerLoop_row (pre rest : Bytes) (t : EncTag) (acc : List EncTag) (fuel : Nat) (tags : Bytes)
+    (ht : tags = pre ++ tagText t ++ rest) (hrest : rest = [] ∨ ∃ r, rest = 0x2C :: r) :
+    outerLoop tags tags.length (fuel + 1) pre.length acc
+      = outerLoop tags tags.length fuel (pre.length + (tagText t).length + 1) (acc ++ [t]) := by
+  have hl := tagText_length t
+  obtain ⟨name, value, pl⟩ := t
+  simp only at hl
+  have hlen : tags.length = pre.length + (2 + (hexUpper name).length + 1 + (hexUpper value).length) + rest.length := by
+    rw [ht]; simp only [List.length_append, hl]
+  have hlt : ¬ pre.length ≥ tags.length := by omega
+  have ht2 : tags = pre ++ (if pl then 0x31 else 0x30) :: 0x3A :: (hexUpper name ++ 0x3A :: hexUpper value) ++ rest := by
+    simp [ht, tagText]
+  have hget : tags[pre.length]? = some (if pl then 0x31 else 0x30) :=
+    getElem?_mid pre (0x3A :: (hexUpper name ++ 0x3A :: hexUpper value) ++ rest) _ tags _ (by simp [ht2]) rfl
+  have hpl : decide ((if pl then (0x31 : UInt8) else 0x30) = 0x31) = pl := by cases pl <;> decide
+  obtain ⟨f, hf⟩ : ∃ f, tags.length + 2 = f + 1 + (hexUpper value).length + 1 + (hexUpper name).length :=
+    ⟨tags.length - (hexUpper value).length - (hexUpper name).length, by omega⟩
+  have hin := innerLoop_row pre rest _ name value pl f tags ht2 hrest
+  rw [← hf] at hin
+  rw [outerLoop]
+  simp only [hlt, if_false, hget, hpl, hin]
+  congr 1
+  omega
+
+/-- the parsing invariant: from the start of a row, the outer loop appends exactly the remaining tags, in order -/
+theorem outerLoop_groupConcat (ts : List EncTag) :
+    ∀ (pre : Bytes) (acc : List EncTag) (fuel : Nat) (tags : Bytes), tags = pre ++ groupConcat ts →
+      tags.length < fuel + pre.length → outerLoop tags tags.length fuel pre.length acc = .ok (acc ++ ts) := by
+  induction ts with
+  | nil =>
+    intro pre acc fuel tags ht hf
+    have ht' : tags = pre := by simp [ht, groupConcat]
+    subst ht'
+    cases fuel with
+    | zero => omega
+    | succ fuel => rw [outerLoop]; simp
+  | cons t ts ih =>
+    intro pre acc fuel tags ht hf
+    have hl := tagText_length t
+    cases ts with
+    | nil =>
+      have ht' : tags = pre ++ tagText t ++ [] := by simp [ht, groupConcat]
+      have hlen : tags.length = pre.length + (tagText t).length := by rw [ht']; simp
+      obtain ⟨fuel, rfl⟩ : ∃ f, fuel = f + 1 + 1 := ⟨fuel - 2, by omega⟩
+      rw [outerLoop_row pre [] t acc (fuel + 1) tags ht' (Or.inl rfl), outerLoop]
+      have hge : pre.length + (tagText t).length + 1 ≥ tags.length := by omega
+      simp only [hge, if_true]
+    | cons t' ts =>
+      have ht' : tags = pre ++ tagText t ++ (0x2C :: groupConcat (t' :: ts)) := by simp [ht, groupConcat]
+      have hlen : tags.length = pre.length + (tagText t).length + 1 + (groupConcat (t' :: ts)).length := by
+        rw [ht']; simp only [List.length_append, List.length_cons]; omega
+      obtain ⟨fuel, rfl⟩ : ∃ f, fuel = f + 1 := ⟨fuel - 1, by omega⟩
+      rw [outerLoop_row pre _ t acc fuel tags ht' (Or.inr ⟨_, rfl⟩)]
+      have := ih (pre ++ tagText t ++ [0x2C]) (acc ++ [t]) fuel tags (by simp [ht'])
+        (by simp only [List.length_append, List.length_cons, List.length_nil]; omega)
+      simp only [List.length_append, List.length_cons, List.length_nil, Nat.zero_add] at this
+      rw [this]
+      simp
+
+/-- `decode_tags` parses exactly what `GROUP_CONCAT(plaintext || ':' || HEX(name) || ':' || HEX(value))` produces: every tag
+    list (any length incl. none, any names / values incl. empty ones, both plaintext flags), order preserved -/
+theorem decodeTags_groupConcat (ts : List EncTag) : decodeTags (groupConcat ts) = .ok ts := by
+  have := outerLoop_groupConcat ts [] [] ((groupConcat ts).length + 1) (groupConcat ts) (by simp) (by simp)
+  simpa [decodeTags] using this
 
 /-! ### the toy AEAD satisfies the hypotheses (non-vacuity) -/
 
